@@ -1,4 +1,4 @@
-\* thorough tier: LineIndependent / InRange for every resolv.conf of <= 4 lines over all 44 classes (spec only)
+\* thorough tier: LineIndependent / InRange for every resolv.conf of <= 4 lines over all 47 classes (spec only)
 SPECIFICATION Spec
 CONSTANTS
   Alphabet <- Classes
